@@ -524,7 +524,7 @@ func (rc *runCtx) candidate(g *group, pkgName string, h HSpec, params map[string
 		confirmed = false
 	}
 	if !confirmed {
-		rc.broken = append(rc.broken, fmt.Sprintf("ENGINE-MISMATCH %s: counterexample for %q (%s) did not reproduce natively; stack %s\n%s", h.Func, v.Label, v.Kind, v.Stack, tail(out, 2000)))
+		rc.broken = append(rc.broken, fmt.Sprintf("ENGINE-MISMATCH %s: counterexample for %q (%s) did not reproduce natively; model %v; stack %s\n%s", h.Func, v.Label, v.Kind, compactModel(v.Model), v.Stack, tail(out, 2000)))
 		return
 	}
 	rc.replays++
